@@ -1079,6 +1079,51 @@ func mergeProps(a, b []string) []string {
 	return out
 }
 
+// rangeIndexOf: the hidden index cell of a range-over-slice loop (nil for other loops).
+func rangeIndexOf(ld *loopDesc) *ssa.Alloc {
+	for _, in := range ld.Head.Instrs {
+		bo, ok := in.(*ssa.BinOp)
+		if !ok || bo.Op != token.LSS {
+			continue
+		}
+		add, ok := bo.X.(*ssa.BinOp)
+		if !ok || add.Op != token.ADD {
+			continue
+		}
+		ld0, ok := add.X.(*ssa.UnOp)
+		if !ok || ld0.Op != token.MUL {
+			continue
+		}
+		if al, ok := ld0.X.(*ssa.Alloc); ok && al.Comment == "rangeindex" {
+			return al
+		}
+	}
+	return nil
+}
+
+// enclosingRangeIndex: index cell of the innermost range loop containing the frame's current block.
+func (ex *Exec) enclosingRangeIndex(fr *Frame) *ssa.Alloc {
+	if fr.Fn == nil || fr.Block == nil {
+		return nil
+	}
+	var best *loopDesc
+	for _, ld := range ex.loopsOf(fr.Fn).ByHead {
+		if !ld.Blocks[fr.Block] && ld.Head != fr.Block {
+			continue
+		}
+		if rangeIndexOf(ld) == nil {
+			continue
+		}
+		if best == nil || len(ld.Blocks) < len(best.Blocks) {
+			best = ld
+		}
+	}
+	if best == nil {
+		return nil
+	}
+	return rangeIndexOf(best)
+}
+
 // autoInvariants: -1 <= rangeindex (&& rangeindex < len when positive).
 func (ex *Exec) autoInvariants(st *State, fr *Frame, ld *loopDesc) []func(*State) *Term {
 	var out []func(*State) *Term
